@@ -652,3 +652,53 @@ func snaCond(fn *ssa.Function, want bool, argPats []VPat) CondPat {
 		return false
 	}
 }
+
+// reachesFn: owner is fn, or statically calls it (through in-package callees, depth-bounded).
+func reachesFn(owner, fn *ssa.Function, depth int) bool {
+	if owner == fn || enclosingNamed(fn) == owner {
+		return true
+	}
+	if depth == 0 || owner == nil || owner.Blocks == nil {
+		return false
+	}
+	found := false
+	forEachInstr(owner, func(in ssa.Instruction) {
+		if found {
+			return
+		}
+		if ci, ok := in.(ssa.CallInstruction); ok {
+			if _, isGo := in.(*ssa.Go); isGo {
+				return
+			}
+			if sc := ci.Common().StaticCallee(); sc != nil && curProg != nil && curProg.inPkg(sc) && reachesFn(sc, fn, depth-1) {
+				found = true
+			}
+		}
+	})
+	return found
+}
+
+// storesInRegion: stores to f in fn and in the private helpers owned by fn.
+func (c *RuleCtx) storesInRegion(fn *ssa.Function, f *types.Var) []Access {
+	var out []Access
+	for _, g := range c.P.Region(fn) {
+		out = append(out, c.storesIn(g, f)...)
+	}
+	return out
+}
+
+// localFactsUpTo: the local (non-expanded) dominating facts of in, extended
+// along single-call-site private helpers up to (and including) root.
+func localFactsUpTo(in ssa.Instruction, root *ssa.Function) []condFact {
+	out := DomFacts(in.Block())
+	fn := in.Parent()
+	for d := 0; d < 4 && fn != nil && fn != root && curProg != nil && curProg.PrivateHelper(fn); d++ {
+		sites := curProg.CallSitesOf(fn)
+		if len(sites) != 1 {
+			break
+		}
+		out = append(out, DomFacts(sites[0].Instr.Block())...)
+		fn = sites[0].Fn
+	}
+	return out
+}
